@@ -229,6 +229,27 @@ SameRowGames ==
             o1 \in {P1, P2, PR}, oa \in {P1, P2}, ob \in {P1, P2}, row \in {row2, row3, row3b},
             r \in { <<9, 2, 6>>, <<1, 5, 2>>, <<0, 0, 3>>, <<4, 6, 1>> } }
 
+(* LoopDiag: a cycle through a player state that it leaves at once when     *)
+(* minimising (maximising) reward but stays on when following its            *)
+(* reachability strategy: the diagnostic "rewards under minimal              *)
+(* reachability" converges far more slowly than the other two quantities.    *)
+(*   1 chooser: out -> 2, loop -> 3 ; 2 chance -> win / lose ;               *)
+(*   3 chance -> back to 1 (weight w), win, lose ; 4 lose ; 5 win            *)
+LoopDiagGames ==
+    LET mk(o, w, pout, r) ==
+          [n |-> 5,
+           owner  |-> <<o, PR, PR, PR, PR>>,
+           reward |-> <<r[1], r[2], r[3], 0, 0>>,
+           tr |-> << <<Tr("out", 0, 2), Tr("loop", 0, 3)>>,
+                     pout,
+                     <<Tr("", w, 1), Tr("", 1, 5), Tr("", 1, 4)>>,
+                     <<Tr("", 1, 4)>>, <<Tr("", 1, 5)>> >>,
+           final |-> <<5>>]
+    IN  { mk(o, w, pout, r) :
+            o \in {P1, P2}, w \in {2, 8, 18},
+            pout \in { <<Tr("", 9, 5), Tr("", 1, 4)>>, <<Tr("", 1, 5), Tr("", 1, 4)>>, <<Tr("", 1, 5), Tr("", 9, 4)>> },
+            r \in { <<1, 3, 1>>, <<0, 0, 2>>, <<1, 9, 0>>, <<2, 1, 1>> } }
+
 (* BigRew: rewards in the millions whose relative difference is tiny but    *)
 (* whose absolute difference is far above the tolerance.                    *)
 BigRewGames ==
